@@ -456,5 +456,6 @@ MUTANTS = [
                 zck->chunk_auto_min = zck->chunk_auto_max;
 """, 'new': '', 'expect': 'R9.order comp_init'},
 ]
-MUTANTS[3]['edits'] = [('src/lib/comp/comp.c', MUTANTS[3]['old'], MUTANTS[3]['new']),
+_m38 = [m for m in MUTANTS if m['id'] == 'm38'][0]
+_m38['edits'] = [('src/lib/comp/comp.c', _m38['old'], _m38['new']),
                        ('src/lib/comp/comp.c', '#include <math.h>\n', '#include <math.h>\n#include <time.h>\n')]
